@@ -228,13 +228,34 @@ def write_if_changed(path, text):
     return True
 
 
-def main(outdir=None):
+def gen_unicode(tables_text):
+    """G8: Unicode predicate tables, *executed* from the linked crates by `implrun tables`"""
+    rows = {}
+    for ln in tables_text.split("\n"):
+        p = ln.split(" ")
+        if p[0] in ("WS", "XIDS", "XIDC"):
+            rows[p[0]] = [tuple(map(int, r.split("-"))) for r in p[1:] if r]
+        elif p[0] == "NSCHECK" and p[1] != "1":
+            raise TranslateError("name-start predicate of the crate is not XID_Start or '_'")
+    if set(rows) != {"WS", "XIDS", "XIDC"}:
+        raise TranslateError("unicode tables missing from implrun output")
+    o = ["(* GENERATED by tools/translate.py from `implrun tables` (char::is_whitespace, unicode-ident as linked) - do not edit *)",
+         "From Coq Require Import NArith List.\nImport ListNotations.\nOpen Scope N_scope.\n"]
+    for k, name in (("WS", "WS_RANGES"), ("XIDS", "XID_START_RANGES"), ("XIDC", "XID_CONTINUE_RANGES")):
+        body = ";\n   ".join("; ".join(f"({a}, {b})" for a, b in rows[k][i:i + 8]) for i in range(0, len(rows[k]), 8))
+        o.append(f"Definition {name} : list (N * N) :=\n  [{body}].\n")
+    return "\n".join(o) + "\n"
+
+
+def main(outdir=None, tables_text=None):
     outdir = outdir or os.path.join(VERIF, "coq", "Gen")
     changed = []
     tt = parse_token_type()
     ek = parse_error_kind()
     ch = parse_channel()
     files = {"TokenType.v": gen_token_type(tt), "ErrorKind.v": gen_error_kind(ek), "Channel.v": gen_channel(ch)}
+    if tables_text is not None:
+        files["Unicode.v"] = gen_unicode(tables_text)
     try:
         import translate_tables
         files.update(translate_tables.generate(tt, ek))
